@@ -701,6 +701,7 @@ def run_program(env, cfg, prog, record=True, plain=False, fault=None):
     refs = {}
     outcomes = []
     kept_activities = []
+    added_tx = set()
     conn_rolled_back = False
     classes = env.classes
 
@@ -743,12 +744,13 @@ def run_program(env, cfg, prog, record=True, plain=False, fault=None):
             try:
                 if kind == 'add':
                     _, c, key, vals = op
-                    prev = refs.get((c, json.dumps(key)))
-                    if prev is not None and prev in s.new:
-                        # a second pending object with the same primary key: which of the two SQLAlchemy keeps depends
-                        # on set iteration order (not deterministic across processes) - not a meaningful program
+                    if (c, json.dumps(key)) in added_tx:
+                        # a second object with the same primary key added in one transaction: if both are still pending,
+                        # which of the two SQLAlchemy keeps depends on set iteration order (not deterministic across
+                        # processes) - not a meaningful program. Decided on the program text, not on flush timing.
                         outcomes.append('skip')
                         continue
+                    added_tx.add((c, json.dumps(key)))
                     o = classes[c](**pkdict(c, key), **vals)
                     s.add(o)
                     refs[(c, json.dumps(key))] = o
@@ -768,6 +770,7 @@ def run_program(env, cfg, prog, record=True, plain=False, fault=None):
                         continue
                     s.delete(o)
                     refs.pop((c, json.dumps(key)), None)
+                    added_tx.discard((c, json.dumps(key)))
                 elif kind == 'delbase':
                     # ['delbase', cls, key]: the object is loaded through the base class of its hierarchy (the columns
                     # of the child table are not loaded), then deleted
@@ -887,6 +890,7 @@ def run_program(env, cfg, prog, record=True, plain=False, fault=None):
                         rec.cur = None
                     s.close()
                     refs.clear()
+                    added_tx.clear()
                     sp_handles[:] = []
                     conn_rolled_back = False
                     if active:
@@ -913,12 +917,14 @@ def run_program(env, cfg, prog, record=True, plain=False, fault=None):
                     s.query(classes[op[1]]).all()
                 elif kind == 'commit':
                     s.commit()
+                    added_tx.clear()
                     mark('commit')
                 elif kind == 'rollback':
                     if rec:
                         rec.cur = None
                     s.rollback()
                     refs.clear()
+                    added_tx.clear()
                     mark('rollback')
                 elif kind == 'manualtx':
                     if env.versioned:
@@ -932,6 +938,7 @@ def run_program(env, cfg, prog, record=True, plain=False, fault=None):
                     rec.cur = None
                 s.rollback()
                 refs.clear()
+                added_tx.clear()
                 sp_handles[:] = []
                 mark('rollback')
                 if isinstance(e, InjectedFault) or 'InjectedFault' in repr(e) or (fault is not None and fstate['fired'] and not fault_info['reported']):
